@@ -62,7 +62,7 @@ def untouched_ok(s, r, v):
 
 def oracle(ctx, cases):
     for c in cases:
-        plain = gen_value.is_plain(c.value)
+        plain = not gen_value.has_placeholder(c.value)     # C04: "a plain value (no ... placeholders)"
         ctx.case((repr(c.schema), repr(c.value)), c.kind == "ok" and plain and c.tag != "witness")
         ctx.count("tag:" + c.tag)
         if c.kind != "ok" or not plain or gen_value.has_nan(c.value):
@@ -101,7 +101,7 @@ def oracle(ctx, cases):
 
 def run(ctx):
     runner.prove(ctx, MODULE, THEOREMS, FILES)
-    cases = substcorr.batch(ctx, ctx.n(90, 700), customs=False) + substcorr.open_dict_any_cases(ctx, ctx.n(150, 1500)) + substcorr.untyped_pair_cases(ctx) + substcorr.untyped_edge_cases(ctx) + substcorr.list_window_cases(ctx) + substcorr.float_precision_cases(ctx) + substcorr.many_errors_cases(ctx) + substcorr.list_partial_dict_cases(ctx)
+    cases = substcorr.batch(ctx, ctx.n(90, 700), customs=False) + substcorr.open_dict_any_cases(ctx, ctx.n(150, 1500)) + substcorr.untyped_pair_cases(ctx) + substcorr.untyped_edge_cases(ctx) + substcorr.untyped_zoo_cases(ctx) + substcorr.relaxed_marker_position_cases(ctx) + substcorr.list_window_cases(ctx) + substcorr.float_precision_cases(ctx) + substcorr.many_errors_cases(ctx) + substcorr.list_partial_dict_cases(ctx)
     from d42 import schema
     corpus = [(schema.list([..., schema.dict({"a": schema.int, "b": schema.int}), ...]), [{"a": 1}, {"a": 1, "b": 2}]),
               (schema.list([..., schema.dict({"a": schema.int}), ...]), [{"a": 1}, {"a": 2}]),
